@@ -121,10 +121,6 @@ def evalForm (vars : Vars) : Nat → Obj → Except ImplErr Obj
   | _ + 1, .cons _ _ => .error .auxForm
   | _ + 1, o => .ok o
 
-def Obj.depth : Obj → Nat
-  | .cons a d => max (Obj.depth a) (Obj.depth d) + 1
-  | _ => 1
-
 /-- value of an `&aux` variable: a list initial form for which the extracted guard holds
     (`1 < len(list)`) is evaluated in the new scope, anything else is bound as it is -/
 def auxValue (vars : Vars) (d : Obj) : Except ImplErr Obj :=
